@@ -121,6 +121,25 @@ PROPS = {
         assumptions=["size-probe expiry is not counted as a retransmission timeout (the library deliberately does not treat it as congestion)",
                      "a data packet sent with neither a packet handed over nor an application write at that instant is taken to be the timeout path"],
     ),
+    "C06": dict(
+        level="exploration",
+        level_text="Trace oracle over generated loss / ACK histories produced by the scripted peer (pretended losses of first and "
+                   "repeated transmissions, cumulative-only or SACK personality, duplicate and stale ACKs, delayed / every-n ACKs, "
+                   "silence for a while or for good with retry limits 2..14): which segment a timer expiry retransmits, doubling of "
+                   "successive timeout gaps within [200 ms, 60 s], the retry cap and the failure time it predicts, fast retransmit of "
+                   "the first hole in the very step of the third duplicate ACK / SACK evidence, never retransmitting acknowledged "
+                   "data, and byte-identical content of every transmission of a sequence number (C01 wire oracle).",
+        level_note=SIM_NOTE + "; fast retransmit is judged only for the first loss detection of an episode (no retransmission since the last "
+                   "ACK that covered everything sent) and only on realistic ACK histories (duplicates only while the peer holds data out of order)",
+        technique="runtime monitoring: scripted-peer stimulus + wire-trace oracles on timing and content of every (re)transmission",
+        budget=dict(quick=200, thorough=2400),
+        require=["c06_transmissions_checked", "c06_timeout_retransmissions_checked", "c06_backoff_steps_checked", "c06_caps_checked",
+                 "c06_fast_retransmit_triggers_checked", "c06_wire_content_checked"],
+        rule="a case is one generated (socket configuration, write pattern, peer loss/ACK policy) script; non-trivial = more than 2 "
+             "data transmissions judged; distinct = distinct normalised wire trace hash",
+        assumptions=["a size probe that is taken back and re-cut is a new segment under the old sequence number: its transmission count starts again and its expiry is not a congestion timeout",
+                     "timing tolerance 3 ms (timer wheel rounding + one logical step)"],
+    ),
     "C09": dict(
         level="exploration",
         level_text="Two oracles. Arithmetic: the real seq_nr_offset / SeqNr ordering against true modular distance for every pair "
